@@ -10,7 +10,7 @@ import re
 from concurrent.futures import ThreadPoolExecutor
 
 from vlib import core
-from translate import t_treeconsts
+from translate import t_treeconsts, t_treeops
 
 HARNESS = 'c0809.py'
 KNOWN_SLOT_REUSE = 'reproduction:fitness[worst]=0:slot-reuse-with-nonpositive-fitness'
@@ -25,7 +25,15 @@ def regenerate(ctx):
     for er in errors:
         ctx.oblige('T-treeconsts translation of %s' % er['item'], False, '%s:%s: %s' % (er['file'], er['line'], er['msg']))
     ctx.oblige('T-treeconsts translated N_ARGS_FUNCTION and TOURNAMENT_SIZE', not errors)
-    return not errors
+    # the operator bodies as data: pointer effects of _cross / _mutate / the linking statements of grow
+    text2, items2, errors2 = t_treeops.generate(core.REPO)
+    core.write_if_changed(os.path.join(core.GEN, 'TreeOps.v'), text2)
+    for it in items2[:1]:
+        ctx.sample({'regenerated_from': '%s:%d' % (it['file'], it['line']), 'text': it['text']})
+    for er in errors2:
+        ctx.oblige('T-treeops translation of %s' % er['item'], False, '%s:%s: %s' % (er['file'], er['line'], er['msg']))
+    ctx.oblige('T-treeops translated %d operator bodies' % len(items2), not errors2)
+    return not errors and not errors2
 
 
 # ---------------------------------------------------------------------------- Coq syntax
@@ -251,17 +259,23 @@ def run_common(ctx, pid, extra_allowed=()):
                'it is run, not modelled, in the harness and compared with the model on every case',
                'Node.pre_order (explicit stack) lists the nodes root-left-right (C11 proves this for the functional tree)')
     ctx.trust('translator T-treeconsts (translate/t_treeconsts.py): N_ARGS_FUNCTION, TOURNAMENT_SIZE -> Gen/TreeArity.v',
+              'translator T-treeops (translate/t_treeops.py): pointer effects of _cross / _mutate / grow linking -> Gen/TreeOps.v '
+              '(= the model descriptions by reflexivity; their interpretation = the model functions, proved)',
               'harness/c0809.py: graph serialiser, scripted randomness, independent WF/disjointness/slot oracle',
-              'hand-written model Model/TreeHeap.v, tied to the source by the correspondence run only',
+              'hand-written model Model/TreeHeap.v: _cross, _mutate and the linking step of grow are tied by T-treeops + proof; find_node, deepcopy, the draw/selection part of grow, _reproduction, _mutation, _crossover, _evaluate by the correspondence run only',
               'Model/TreeHeapSer.v: the serialiser and fixtures on the Coq side (unverified, executable)')
     regenerate(ctx)
-    ok, log = ctx.build_props(extra_targets=['theories/Model/TreeHeapSer.vo', 'theories/Gen/TreeArity.vo'],
+    ok, log = ctx.build_props(extra_targets=['theories/Model/TreeHeapSer.vo', 'theories/Gen/TreeArity.vo', 'theories/Gen/TreeOps.vo'],
                               allowed_axioms=list(extra_allowed))
     data = run_harness(ctx)
     if data is None:
         return
     cases = data['cases']
     check_consts(ctx, data)
+    if not ok:
+        # the theorems do not build (e.g. the regenerated operator description is no longer the model's): the
+        # executable model may still build -- keep the correspondence signal
+        ok, _ = ctx.build(['theories/Model/TreeHeapSer.vo', 'theories/Gen/TreeArity.vo'])
     if ok:
         res, coq_ok, nchunks = correspond(ctx, cases, tag='corr', workers=4 if ctx.quick else 8)
     else:
